@@ -47,6 +47,8 @@ def run(ctx):
     ctx.guard(layout, ctx, g)
     ctx.guard(optional, ctx, g)
     ctx.guard(keywords, ctx, g)
+    ctx.guard(lists, ctx, g)
+    ctx.guard(node_ctors, ctx, g)
     L = g.lalr()
     total = sum(len(r.instances) for r in ctx.rules)
     bad = sum(len(r.violations) for r in ctx.rules)
@@ -274,6 +276,81 @@ def optional(ctx, g):
                         % (P.fn.name, S.fn.name, [P.syms[d - 1] for d in deleted]))
     if pairs == 0:
         raise AnalysisError('no optional-word production pair discovered')
+
+
+def lists(ctx, g):
+    '''recursive list productions keep the elements in source order'''
+    r = ctx.rule('C07-LISTS', 'recursive list productions build their lists in source order', floor=5,
+                 oracle='position of the recursive symbol in the production')
+    for p in g.productions:
+        if p.head not in p.syms:
+            continue
+        k = p.syms.index(p.head) + 1
+        body = [x for b in body_without_doc(p.fn) for x in ast.walk(b) if isinstance(x, ast.stmt)]
+        if not any(pm.match('p[0] = p[%d]' % k, st) is not None for st in body):
+            continue
+        for st in body:
+            m = pm.match('p[0].children.insert(_IDX, p[_J])', st)
+            how = 'insert'
+            if m is None:
+                m = pm.match('p[0].children.append(p[_J])', st)
+                how = 'append'
+            if m is None or not isinstance(m['_J'], ast.Constant):
+                continue
+            j = m['_J'].value
+            if j < k:
+                ok = how == 'insert' and isinstance(m['_IDX'], ast.Constant) and m['_IDX'].value == 0
+                want = 'inserted at the front (the list of the LATER elements is p[%d])' % k
+            else:
+                ok = how == 'append'
+                want = 'appended (the list of the EARLIER elements is p[%d])' % k
+            r.check(ok, '%s: element p[%d] is %s' % (p.fn.name, j, want), st, construct=CLS + '.' + p.fn.name, key='list-order',
+                    msg='%s (%s): the element p[%d] stands %s the recursive symbol p[%d], so it must be %s; `%s` reverses the order of the '
+                        'elements in the tree' % (p.fn.name, p, j, 'before' if j < k else 'after', k, want, src(st)))
+
+
+def node_ctors(ctx, g):
+    '''every Node constructor stores each argument in the equally named field; list nodes own a fresh list; no mutable defaults'''
+    repo = ctx.repo
+    r = ctx.rule('C07-NODES', 'syntax tree node constructors keep their arguments apart (slot identity, fresh child lists)', floor=50,
+                 oracle='constructor parameter names = field names (the handlers of interpreter/prebuilder read the fields by these names)')
+    from .nodes import node_class_names
+    names = node_class_names(repo)
+    for c in repo.classes('bridgepoint.oal'):
+        if c.name not in names:
+            continue
+        init = repo.methods(c).get('__init__')
+        if init is None:
+            continue
+        q = 'bridgepoint.oal:%s.__init__' % c.name
+        for d in init.args.defaults + [x for x in init.args.kw_defaults if x is not None]:
+            mutable = isinstance(d, (ast.List, ast.Dict, ast.Set)) or (isinstance(d, ast.Call) and dotted(d.func) in ('list', 'dict', 'set'))
+            r.check(not mutable, '%s has no mutable default argument' % q, d, construct=q, key='mutable-default',
+                    msg='%s has the mutable default `%s`: every node built without that argument shares ONE object, so children of one parse '
+                        'result show up in another' % (q, src(d)))
+        ps = param_names(init)
+        delegated = any(isinstance(n, ast.Call) and src(n.func).endswith('.__init__') for n in ast.walk(init))
+        for st in init.body:
+            if isinstance(st, ast.Assign) and len(st.targets) == 1 and isinstance(st.targets[0], ast.Attribute) and src(st.targets[0].value) == 'self':
+                f = st.targets[0].attr
+                v = st.value
+                used = [n.id for n in ast.walk(v) if isinstance(n, ast.Name) and n.id in ps]
+                if f in ps:
+                    r.check(used == [f], '%s: self.%s <- %s' % (c.name, f, f), st, construct=q, key='slot ' + f,
+                            msg='%s stores `%s` in self.%s; the field must receive the constructor argument of the same name (the grammar actions '
+                                'pass operands by these names)' % (q, src(v), f))
+                elif used:
+                    r.check(False, '', st, construct=q, key='slot ' + f, msg='%s stores the argument %s in the unrelated field self.%s' % (q, used, f))
+                elif f == 'children':
+                    ok = (isinstance(v, ast.Call) and dotted(v.func) == 'list' and not v.args) or (isinstance(v, ast.List) and not v.elts)
+                    r.check(ok, '%s creates a fresh children list' % c.name, st, construct=q, key='children',
+                            msg='%s does not create a new empty list for self.children' % q)
+        if not delegated:
+            stored = set(st.targets[0].attr for st in init.body if isinstance(st, ast.Assign) and len(st.targets) == 1
+                         and isinstance(st.targets[0], ast.Attribute) and src(st.targets[0].value) == 'self')
+            for p_ in ps:
+                r.check(p_ in stored, '%s keeps its argument %s' % (c.name, p_), init, construct=q, key='dropped ' + p_,
+                        msg='%s never stores its argument `%s`' % (q, p_))
 
 
 def keywords(ctx, g):
